@@ -221,9 +221,17 @@ impl Ctx {
             let show = |v: &Vec<pgp::errors::Result<pgp::packet::Packet>>| v.iter().map(|p| match p {
                 Ok(p) => { use pgp::ser::Serialize; format!("{:?}", p.to_bytes().map(|b| hx(&b[p_hdr_len(&b)..]))) }
                 Err(_) => "ERR".to_string() }).collect::<Vec<_>>().join("|");
-            (show(&a), show(&b))
+            // written again, the packet is legally framed: a packet read from any current-format framing is written with the one
+            // fixed-length header its body has (the same octets as the canonical framing's); a legacy header keeps its format
+            let whole = |v: &Vec<pgp::errors::Result<pgp::packet::Packet>>| v.iter().map(|p| match p {
+                Ok(p) => { use pgp::ser::Serialize; p.to_bytes().map(|b| hx(&b)).unwrap_or_else(|_| "ERR".into()) }
+                Err(_) => "ERR".to_string() }).collect::<Vec<_>>().join("|");
+            let rewritten_same = old_lt.is_some() || whole(&a) == whole(&b);
+            // ... and what was written parses back to one packet that is written the same way again
+            let reparsed_same = { use pgp::ser::Serialize; b.iter().all(|p| match p { Ok(p) => p.to_bytes().ok().map(|w| { let again: Vec<_> = PacketParser::new(&w[..]).collect(); again.len() == 1 && matches!(&again[0], Ok(q) if q.to_bytes().ok().as_deref() == Some(&w[..])) }).unwrap_or(false), Err(_) => true }) };
+            (show(&a), show(&b), rewritten_same && reparsed_same)
         });
-        let (imp, pred) = match r { Ok((a, b)) => (format!("{}", (a == b) as u8), a == b && !a.contains("ERR")), Err(p) => (p, false) };
+        let (imp, pred) = match r { Ok((a, b, rw)) => (format!("{} rewritten-legally={}", (a == b) as u8, rw as u8), a == b && !a.contains("ERR") && rw), Err(p) => (p, false) };
         self.out.case("", &[], &["parse_same".into(), tag.to_string(), hx(body), nums(&ks.iter().map(|&k| k as usize).collect::<Vec<_>>()), clsn.to_string(), old_lt.map(|x| x.to_string()).unwrap_or("-".into())], &imp, Some(pred), cls);
     }
 }
